@@ -41,7 +41,8 @@ def main():
         for d in demos:
             txt = open(d).read()
             pk = re.search(r'^package (\w+)', txt, re.M).group(1).replace('_test', '')
-            pkgdir = PKG[pk]
+            pkgdir = PKG.get(pk, pk)
+            os.makedirs(os.path.join(sw, pkgdir), exist_ok=True)
             tests += re.findall(r'^func (Test\w+)\(', txt, re.M)
             shutil.copy(d, os.path.join(sw, pkgdir, os.path.basename(d)))
         pat = '^(' + '|'.join(tests) + ')$'
